@@ -38,7 +38,9 @@ impl Evaluate for Backwards {
     type Problem = RealP;
     fn evaluate(&mut self, problem: &RealP, _state: &mut State<RealP>, individuals: &mut [Individual<RealP>]) {
         for i in individuals.iter_mut().rev() {
-            i.evaluate_with(|s| problem.objective(s));
+            // the other documented way for a user evaluator to store its result
+            let o = problem.objective(i.solution());
+            i.set_objective(o);
         }
     }
 }
@@ -371,7 +373,8 @@ impl Evaluate for Plus100 {
     type Problem = RealP;
     fn evaluate(&mut self, problem: &RealP, _state: &mut State<RealP>, individuals: &mut [Individual<RealP>]) {
         for i in individuals.iter_mut() {
-            i.evaluate_with(|s| crate::subject::problems::so(problem.f(s) + 100.0));
+            let o = crate::subject::problems::so(problem.f(i.solution()) + 100.0);
+            i.set_objective(o);
         }
     }
 }
